@@ -19,6 +19,7 @@ Definition event_eqb (a b : event) : bool :=
 Definition result_eqb (a b : result) : bool :=
   match a, b with
   | RVal x, RVal y => N.eqb x y
+  | RErr x, RErr y => N.eqb x y
   | RNil, RNil | RNoApplicable, RNoApplicable | RNoNext, RNoNext
   | ROutOfFuel, ROutOfFuel | ROther, ROther => true
   | _, _ => false
